@@ -332,13 +332,101 @@ func (w *encWalker) sortedMapLoop(list []ast.Stmt, fnObj types.Object) (string, 
 		return "", fmt.Errorf("deterministic arm: sorted keys must be iterated by a reverse index loop (the buffer is filled backwards); a forward or range loop emits descending key order")
 	}
 	le := w.e.child()
-	le.set(idx, "idx($keys)")
+	le.set(idx, w.idxMarker+"($keys)")
 	// keyTerm: elem($keys) – conversions K(keys[i]) are identity on the key type
 	le2 := &keyEnv{le}
+	if fnObj == nil {
+		// no entry closure: the loop body encodes the entry itself
+		saved := w.e
+		w.e = le
+		sub := &wout{}
+		err := w.stmts(fs.Body.List, sub, nil)
+		w.e = saved
+		if err != nil {
+			return "", err
+		}
+		w.inlineEntry = substW(sub.ws, coll+"[elem($keys)]", "val("+coll+")", "elem($keys)", "key("+coll+")")
+		return coll, nil
+	}
 	if err := w.callEntry(fs.Body.List, le2.env, coll, "elem($keys)", fnObj); err != nil {
 		return "", err
 	}
 	return coll, nil
+}
+
+// mapBlockInline recognises a map field's marshal block without an entry closure:
+//
+//	if options.Deterministic { keys := collect(C); sort(keys); for reverse keys { k := keys[i]; v := C[k]; end := i; …emit… } }
+//	else { for k[, v] := range C { [v := C[k];] end := i; …emit… } }
+//
+// Both loop bodies are interpreted; they must write the same entry.
+func (w *encWalker) mapBlockInline(list []ast.Stmt, out *wout) (string, error, bool) {
+	info := w.e.info
+	if len(list) != 1 {
+		return "", nil, false
+	}
+	is, ok := list[0].(*ast.IfStmt)
+	if !ok || is.Init != nil || is.Else == nil {
+		return "", nil, false
+	}
+	sel, ok := ast.Unparen(is.Cond).(*ast.SelectorExpr)
+	if !ok || sel.Sel.Name != "Deterministic" || !w.isIdent(sel.X, w.opts) {
+		return "", nil, false
+	}
+	eb, ok := is.Else.(*ast.BlockStmt)
+	if !ok || len(eb.List) != 1 {
+		return "", und("map block else arm"), true
+	}
+	rs, ok := eb.List[0].(*ast.RangeStmt)
+	if !ok {
+		return "", und("plain arm is not a range loop"), true
+	}
+	collElse, err := w.e.term(rs.X)
+	if err != nil {
+		return "", err, true
+	}
+	if t := info.TypeOf(rs.X); t == nil {
+		return "", und("range operand type"), true
+	} else if _, isMap := t.Underlying().(*types.Map); !isMap {
+		return "", und("plain arm does not range over the map"), true
+	}
+	kv, _ := rs.Key.(*ast.Ident)
+	if kv == nil || kv.Name == "_" {
+		return "", und("plain arm must bind the key"), true
+	}
+	ce := w.e.child()
+	ce.set(info.ObjectOf(kv), "key("+collElse+")")
+	if rs.Value != nil {
+		vid, ok := rs.Value.(*ast.Ident)
+		if !ok {
+			return "", und("plain arm range value form"), true
+		}
+		if vid.Name != "_" {
+			ce.set(info.ObjectOf(vid), "val("+collElse+")")
+		}
+	}
+	saved := w.e
+	w.e = ce
+	sub := &wout{}
+	err = w.stmts(rs.Body.List, sub, nil)
+	w.e = saved
+	if err != nil {
+		return "", fmt.Errorf("plain arm: %w", err), true
+	}
+	w.inlineEntry = nil
+	collThen, err := w.sortedMapLoop(is.Body.List, nil)
+	if err != nil {
+		return "", err, true
+	}
+	if collThen != collElse {
+		return "", fmt.Errorf("deterministic arm iterates %s but the plain arm iterates %s", collThen, collElse), true
+	}
+	if a, b := render(w.inlineEntry), render(sub.ws); a != b {
+		return "", fmt.Errorf("the deterministic arm writes the entry %s, the plain arm writes %s", a, b), true
+	}
+	out.prepend(WMap{collThen, sub.ws})
+	w.detOK = append(w.detOK, collThen)
+	return collThen, nil, true
 }
 
 type keyEnv struct{ *env }
